@@ -349,8 +349,21 @@ def matrix(layout_filter=None, sets=None, skip_recorded=True):
 # ----------------------------------------------------- function-level checks --
 def reader_on(data):
     from sharepoint2text.parsing.extractors.util.sevenzip import SevenZipReader
-    r = SevenZipReader.__new__(SevenZipReader)
-    r._stream = io.BytesIO(data)
+    new = io.BytesIO(data)
+    src = io.BytesIO(write7z([]))
+    try:
+        # a reader built by its own constructor (over an empty archive) and then pointed at the bytes under test: whichever
+        # attributes the constructor sets exist, and the stream is found by identity, not by the name of a private attribute
+        r = SevenZipReader(src)
+        slots = [k for k, v in vars(r).items() if v is src or isinstance(v, io.BytesIO)]       # the archive and the (header) stream being parsed
+        for k in slots:
+            setattr(r, k, new)
+        if not slots:
+            raise AttributeError("stream attribute not found")
+    except Exception:  # noqa  constructor not usable this way: the bare object with the stream under its customary name
+        r = SevenZipReader.__new__(SevenZipReader)
+        r._stream = new
+    r._replay_io = new
     return r
 
 
@@ -361,7 +374,7 @@ def check_read_number():
     cases += [number(v) + b"\xaa" for v in (0, 1, 127, 128, 0x3FFF, 0x4000, 2 ** 32, 2 ** 56 - 1, 2 ** 56, 2 ** 64 - 1)]
     for data in cases:
         r = reader_on(data)
-        got = (r._read_number(), r._stream.tell())
+        got = (r._read_number(), r._replay_io.tell())
         if got != number_spec(data):
             return {"target": "sevenzip.py::SevenZipReader._read_number", "inputs": {"stream_hex": data.hex()},
                     "expected": f"(value, bytes consumed) = {number_spec(data)}", "observed": str(got)}
@@ -374,9 +387,9 @@ def check_bool_vector():
             r = reader_on(data)
             got = r._read_boolean_vector(count)
             want = [bool(data[i // 8] & (0x80 >> (i % 8))) for i in range(count)]
-            if got != want or r._stream.tell() != (count + 7) // 8:
+            if got != want or r._replay_io.tell() != (count + 7) // 8:
                 return {"target": "sevenzip.py::SevenZipReader._read_boolean_vector", "inputs": {"count": count, "stream_hex": data.hex()},
-                        "expected": str(want), "observed": f"{got} pos={r._stream.tell()}"}
+                        "expected": str(want), "observed": f"{got} pos={r._replay_io.tell()}"}
     return None
 
 
@@ -392,9 +405,9 @@ def check_bool_vector_defined():
                     want, end = [True] * count, 1
                 else:
                     want, end = [bool(data[1 + i // 8] & (0x80 >> (i % 8))) for i in range(count)], 1 + (count + 7) // 8
-                if list(got) != want or r._stream.tell() != end:
+                if list(got) != want or r._replay_io.tell() != end:
                     return {"target": "sevenzip.py::SevenZipReader._read_boolean_vector", "inputs": {"count": count, "check_defined": True, "stream_hex": data.hex()},
-                            "expected": f"{want} pos={end}", "observed": f"{list(got)} pos={r._stream.tell()}"}
+                            "expected": f"{want} pos={end}", "observed": f"{list(got)} pos={r._replay_io.tell()}"}
     return None
 
 
@@ -450,7 +463,7 @@ def check_pack_info():
                         r._header_offset, r._pack_positions, r._pack_sizes = 32, [], []
                         try:
                             res = r._parse_pack_info()
-                            got = (res[0], list(res[1]), r._stream.tell()) if res is not None else None
+                            got = (res[0], list(res[1]), r._replay_io.tell()) if res is not None else None
                             if got is not None and (list(r._pack_sizes) != got[1] or list(r._pack_positions)[:1] != [got[0]]):
                                 got = ("fields differ", list(r._pack_positions), list(r._pack_sizes))
                         except Bad7zFile:
@@ -598,8 +611,8 @@ def check_files_info():
                 obs = f"names = {seen_names!r}"
             elif es not in bools or (any(ef) and ef not in bools):
                 obs = f"EmptyStream / EmptyFile vectors = {bools}"
-            elif r._stream.tell() != len(data):
-                obs = f"section ends at {len(data)}, parser stopped at {r._stream.tell()}"
+            elif r._replay_io.tell() != len(data):
+                obs = f"section ends at {len(data)}, parser stopped at {r._replay_io.tell()}"
         except Exception as e:  # noqa
             obs = f"{type(e).__name__}: {e}"
         if obs:
